@@ -16,7 +16,7 @@ pub const SPEC: PropSpec = PropSpec {
     level: "exploration",
     rule: "Cases = (encoding E, generated document, BOM yes/no, declaration yes/no, source slice / buffered piece 1 / random pieces). E ranges over every encoding_rs static that reports is_ascii_compatible() (36 of 40, enumerated from the full list and filtered at run time). Characters are drawn by decoding random byte sequences in E and keeping those that E re-encodes without error, and are placed in text, both kinds of attribute values, comment, CDATA, PI content and an element name (for Shift_JIS / GBK / gb18030 / Big5 no character with trail byte ']' is placed in CDATA). The document is encoded in E, labelled with E in its declaration, and read: event kinds must equal the expected sequence, every payload decoded with reader.decoder() (decode / unescape / decode_and_unescape_value) must equal the original string, decoder().encoding() must be E after the declaration; without declaration UTF-8 is expected; a UTF-8 BOM never appears in an event; Reader::from_str keeps UTF-8 whatever the declaration says; a second declaration or a later BOM does not change the encoding again. Malformed injection: byte sequences that encoding_rs itself rejects for E (lead byte + space, lone lead byte at the end of a text, unmapped single bytes, UTF-8 overlong / surrogate / truncated forms) placed in text and attribute values must make decode, unescape and decode_and_unescape_value fail (never U+FFFD). Plus the repository's tests/documents/encoding corpus, whole and in pieces. Non-trivial = the document contains at least one non-ASCII character.",
     assumptions: &["encoding_rs is the oracle for which characters are representable and which byte sequences are malformed in E", "encoding labels are the canonical names returned by Encoding::name()"],
-    required: &["encodings_seen_all_ascii_compatible", "construct.text", "construct.attr_double", "construct.attr_single", "construct.comment", "construct.cdata", "construct.pi", "construct.name", "malformed_rejected", "path.implicit_bom_xml", "path.implicit_xml", "path.explicit", "path.xml_not_refined", "bom_inputs", "no_declaration_inputs", "corpus_files", "source.chunked"],
+    required: &["encodings_seen_all_ascii_compatible", "construct.text", "construct.attr_double", "construct.attr_single", "construct.comment", "construct.cdata", "construct.pi", "construct.name", "payload_starting_with_U+FEFF", "malformed_rejected", "path.implicit_bom_xml", "path.implicit_xml", "path.explicit", "path.xml_not_refined", "bom_inputs", "no_declaration_inputs", "corpus_files", "source.chunked"],
     run,
     replay,
     thorough_layers: &[("miri", 1), ("asan", 20)],
@@ -142,8 +142,8 @@ enum Src<'a> {
 }
 
 /// read all events, decoding payloads with the reader's decoder
-fn read_decoded(src: Src, expect_enc: &'static Encoding) -> Result<Vec<(Kind, String, Vec<(String, String)>)>, String> {
-    fn go<'i, R>(mut next: impl FnMut(&mut Reader<R>) -> Result<Event<'static>, quick_xml::Error>, mut r: Reader<R>, expect_enc: &'static Encoding, limit: usize) -> Result<Vec<(Kind, String, Vec<(String, String)>)>, String> {
+fn read_decoded(src: Src, expect_enc: &'static Encoding, feff_ok: bool) -> Result<Vec<(Kind, String, Vec<(String, String)>)>, String> {
+    fn go<'i, R>(mut next: impl FnMut(&mut Reader<R>) -> Result<Event<'static>, quick_xml::Error>, mut r: Reader<R>, expect_enc: &'static Encoding, limit: usize, feff_ok: bool) -> Result<Vec<(Kind, String, Vec<(String, String)>)>, String> {
         let mut out = Vec::new();
         for _ in 0..limit {
             let ev = next(&mut r).map_err(|e| format!("reader error: {}", e))?;
@@ -174,7 +174,7 @@ fn read_decoded(src: Src, expect_enc: &'static Encoding) -> Result<Vec<(Kind, St
                 Event::DocType(e) => out.push((Kind::DocType, d(e)?, vec![])),
             }
             for (_, s, attrs) in out.last().into_iter() {
-                if s.contains('\u{FEFF}') || s.contains('\u{FFFD}') || attrs.iter().any(|(_, v)| v.contains('\u{FFFD}')) {
+                if (!feff_ok && s.contains('\u{FEFF}')) || s.contains('\u{FFFD}') || attrs.iter().any(|(_, v)| v.contains('\u{FFFD}')) {
                     return Err(format!("a byte-order mark or replacement character appears in an event: {:?}", s));
                 }
             }
@@ -182,8 +182,8 @@ fn read_decoded(src: Src, expect_enc: &'static Encoding) -> Result<Vec<(Kind, St
         Err("no Eof".into())
     }
     match src {
-        Src::Slice(b) => go(|r| r.read_event().map(|e| e.into_owned()), Reader::from_reader(b), expect_enc, call_bound(b.len()) + 2),
-        Src::Str(s) => go(|r| r.read_event().map(|e| e.into_owned()), Reader::from_str(s), expect_enc, call_bound(s.len()) + 2),
+        Src::Slice(b) => go(|r| r.read_event().map(|e| e.into_owned()), Reader::from_reader(b), expect_enc, call_bound(b.len()) + 2, feff_ok),
+        Src::Str(s) => go(|r| r.read_event().map(|e| e.into_owned()), Reader::from_str(s), expect_enc, call_bound(s.len()) + 2, feff_ok),
         Src::Chunked(b, cuts) => {
             let mut buf = Vec::new();
             go(
@@ -194,6 +194,7 @@ fn read_decoded(src: Src, expect_enc: &'static Encoding) -> Result<Vec<(Kind, St
                 Reader::from_reader(ChunkedRead::new(b, cuts)),
                 expect_enc,
                 call_bound(b.len()) + 2,
+                feff_ok,
             )
         }
     }
@@ -226,6 +227,8 @@ fn diff(want: &[(Kind, String, Vec<(String, String)>)], got: &[(Kind, String, Ve
 
 fn check_doc(e: &'static Encoding, doc: &Doc, cuts: Option<Vec<usize>>) -> Result<(), String> {
     let utf8 = doc.utf8();
+    // U+FEFF inside a payload is a character like any other; only the document's own mark is removed
+    let feff = utf8.contains('\u{FEFF}');
     let (enc_bytes, _, bad) = e.encode(&utf8);
     if bad {
         return Err("harness error: the generated document is not representable in the target encoding".into());
@@ -238,21 +241,21 @@ fn check_doc(e: &'static Encoding, doc: &Doc, cuts: Option<Vec<usize>>) -> Resul
     let expect_enc: &'static Encoding = if doc.declaration { e } else { UTF_8 };
     let want = expected(doc);
     let got = match cuts {
-        None => read_decoded(Src::Slice(&bytes), expect_enc),
-        Some(c) => read_decoded(Src::Chunked(&bytes, c), expect_enc),
+        None => read_decoded(Src::Slice(&bytes), expect_enc, feff),
+        Some(c) => read_decoded(Src::Chunked(&bytes, c), expect_enc, feff),
     }
     .map_err(|m| format!("{} (encoding {}, bytes {})", m, e.name(), hex(&bytes[..bytes.len().min(200)])))?;
     if let Some(d) = diff(&want, &got) {
         return Err(format!("encoding {}: {}", e.name(), d));
     }
     // Reader::from_str: the declaration must not override UTF-8
-    let got = read_decoded(Src::Str(&utf8), UTF_8).map_err(|m| format!("from_str: {}", m))?;
+    let got = read_decoded(Src::Str(&utf8), UTF_8, feff).map_err(|m| format!("from_str: {}", m))?;
     if let Some(d) = diff(&want, &got) {
         return Err(format!("Reader::from_str with a declaration naming {}: {}", e.name(), d));
     }
     // ... also when the string starts with a byte-order mark (U+FEFF)
     let with_bom = format!("{}{}", '\u{FEFF}', utf8);
-    let got = read_decoded(Src::Str(&with_bom), UTF_8).map_err(|m| format!("from_str with a leading U+FEFF: {}", m))?;
+    let got = read_decoded(Src::Str(&with_bom), UTF_8, feff).map_err(|m| format!("from_str with a leading U+FEFF: {}", m))?;
     if let Some(d) = diff(&want, &got) {
         return Err(format!("Reader::from_str with a leading U+FEFF and a declaration naming {}: {}", e.name(), d));
     }
@@ -413,6 +416,10 @@ fn check_state_machine(loc: &mut Local) -> Result<(), String> {
 
 fn gen_doc(e: &'static Encoding, r: &mut Rng) -> Doc {
     let avoid = [SHIFT_JIS, GBK, GB18030, BIG5].contains(&e);
+    let feff_encodable = {
+        let (b, _, bad) = e.encode("\u{FEFF}");
+        !bad && !b.iter().any(|b| matches!(b, b'<' | b'>' | b'&' | b'"' | b'\'' | b'?' | b'-' | b' ' | b'\t' | b'\r' | b'\n' | b'=' | b'/' | b']'))
+    };
     let mut piece = |r: &mut Rng, max: usize, avoid5d: bool| -> String {
         let n = if max == 5 { 1 + r.below(5) } else { r.below(max) };
         let mut s = draw_chars(e, r, n, avoid5d);
@@ -421,6 +428,21 @@ fn gen_doc(e: &'static Encoding, r: &mut Rng) -> Doc {
         }
         if r.bool() {
             s.push('y');
+        }
+        // U+FEFF as payload content (first, last or inner character) where the encoding has it
+        if feff_encodable && r.below(6) == 0 {
+            let at = match r.below(3) {
+                0 => 0,
+                1 => s.len(),
+                _ => {
+                    let mut i = r.below(s.len() + 1);
+                    while !s.is_char_boundary(i) {
+                        i -= 1;
+                    }
+                    i
+                }
+            };
+            s.insert(at, '\u{FEFF}');
         }
         s
     };
@@ -494,6 +516,11 @@ fn run(ctx: &mut Ctx) {
             for (name, s) in [("construct.text", &doc.text), ("construct.attr_double", &doc.attr_d), ("construct.attr_single", &doc.attr_s), ("construct.comment", &doc.comment), ("construct.cdata", &doc.cdata), ("construct.pi", &doc.pi), ("construct.name", &doc.name)] {
                 if !s.is_ascii() {
                     *loc.constructs.entry(name).or_insert(0) += 1;
+                }
+            }
+            for s in [&doc.text, &doc.attr_d, &doc.attr_s, &doc.comment, &doc.cdata] {
+                if s.starts_with('\u{FEFF}') {
+                    *loc.constructs.entry("payload_starting_with_U+FEFF").or_insert(0) += 1;
                 }
             }
             let res = guarded(|| check_doc(e, &doc, cuts.clone())).unwrap_or_else(Err);
@@ -588,6 +615,7 @@ fn run(ctx: &mut Ctx) {
     for k in ["construct.text", "construct.attr_double", "construct.attr_single", "construct.comment", "construct.cdata", "construct.pi", "construct.name"] {
         ctx.add(k, loc.constructs.get(k).copied().unwrap_or(0));
     }
+    ctx.add("payload_starting_with_U+FEFF", loc.constructs.get("payload_starting_with_U+FEFF").copied().unwrap_or(0));
     ctx.add("malformed_rejected", loc.malformed.values().sum());
     for (k, v) in &loc.malformed {
         ctx.add(&format!("malformed.{}", k), *v);
